@@ -147,8 +147,8 @@ structure LeafFk (k : ForeignKey) : Prop where
   slave : ∀ n ∈ k.slave, srcLex n
   master : srcLex k.master
   masterCols : ∀ n ∈ k.masterCols, srcLex n
-/-- a table property `'k'='v'`: the key a quoted string (it is written directly before `=`), the value a raw-source payload -/
-def LeafProp (p : ConfigStr) : Prop := quotedLex p.name ∧ srcLex p.value
+/-- a table property `'k'='v'`: key and value raw-source payloads -/
+def LeafProp (p : ConfigStr) : Prop := srcLex p.name ∧ srcLex p.value
 /-- **the leaf hypotheses of a table definition** -/
 structure LeafC (d : Gen.D) (c : CreateTable) : Prop where
   schema : optNameLex c.table.schema
@@ -402,7 +402,7 @@ theorem seg_myOpts (c : CreateTable) (hai : optIntOK c.autoIncrement = true) (hl
       (seg_optEq [] (by simp) "COMMENT" (by simp [eqWords]) c.comment hl.comment))))))
 
 theorem lx_prop (p : ConfigStr) (hl : LeafProp p) : Lx (propL p) (toksProp p) :=
-  Lx.eqJoin (tk_quoted_eq p.name hl.1) (lx_src p.value hl.2) (src_ne_nil p.value hl.2)
+  Lx.eqJoin (tk_src_eq p.name hl.1) (lx_src p.value hl.2) (src_ne_nil p.value hl.2)
 
 section
 variable (d : Gen.D)
